@@ -423,7 +423,7 @@ def random_reference(r, n_genes=3, coding_p=0.7, max_exons=3, aa_len=(12, 30), n
                 tags.append('mRNA_end_NF')
                 seq = seq[:ce - 3 - r.randrange(0, 3)]
                 ce = len(seq)
-                secs = [x for x in secs if x + 3 <= len(seq)]
+                secs = [x for x in secs if x + 6 <= len(seq)]
                 prot = derive_protein(seq, cs, secs)
             fl = (r.randrange(0, 7), r.randrange(0, 7)) if r.random() < flank_p else (0, 0)
             b.add_gene(seq, strand, nex, True, cs, ce, secs, tags, prot,
